@@ -2,7 +2,9 @@ import Operon.Model.Proto
 import Operon.Model.Gates
 import Operon.Model.Membrane
 import Operon.Model.Innate
+import Operon.Model.Regex
 import Operon.Gen.GatesConsts
+import Operon.Gen.GatesRegex
 /-!
 Line-protocol driver for the injection-gate models (C10).  Imports the models and the generated constants
 (`Operon.Gen.GatesConsts`, core Lean only) — the window length, the inflammation cut-offs and the default
@@ -134,6 +136,23 @@ def mkEnv (table : List (String × Bool)) (compiles : Bool) (js : JsonOut) : Env
 
 def showRx (ps : List Str) : String := showList (sorted (ps.map rxKey))
 
+/-- the shipped regex signatures whose parse tree the model understands, by key -/
+def shippedKeyed : List (String × Rx.Re) :=
+  ((Operon.Gen.Gates.membraneRegexes ++ Operon.Gen.Gates.innateRegexes).filter (·.2.supported)).map
+    fun e => (rxKey e.1, e.2)
+
+/-- **`re` as modelled against the real `re`**: for every shipped regex among the recorded calls of this line, the
+    model's `search` on the parse tree (character tables `stdEnv`) must give what the real compiled pattern gave.
+    Empty when they agree; the implementation side never prints this field, so a disagreement is a diff.
+    (Inputs above 600 code points are not re-evaluated: the interpreter's stack and the time budget.) -/
+def rxModelCheck (table : List (String × Bool)) (content : Str) : String :=
+  if content.length > 600 then "" else
+  let bad := table.filterMap fun (k, b) =>
+    match shippedKeyed.find? (·.1 = k) with
+    | some (_, r) => if Rx.search Rx.stdEnv r content != b then some k else none
+    | none => none
+  if bad.isEmpty then "" else " rxmodel-differs=" ++ ",".intercalate bad
+
 def memStats (m : Membrane) : String :=
   s!"tf={m.totalFiltered} tb={m.totalBlocked} ln={m.learned.length} bh={m.blocked.length}"
 
@@ -228,7 +247,7 @@ def step (st : DSt) (toks : List String) : DSt × String :=
       | some k => s!"raise:hook:{k}"
       | none => s!"{showBool r.allowed} {r.level} m={showSigs r.matched}"
     ({ st with mem := m' },
-     s!"{head} audit={m'.audit.length} last={showBool (m'.audit.getLast? == some r)} {memStats m'} rx={showRx calls} hk={hk} ## {tag}{tag2}{tag3}{tag4}")
+     s!"{head} audit={m'.audit.length} last={showBool (m'.audit.getLast? == some r)} {memStats m'} rx={showRx calls} hk={hk}{rxModelCheck table content} ## {tag}{tag2}{tag3}{tag4}")
   | "par" :: _ :: cs =>
     -- threads filtering concurrently: recorded critical-section order `o=…`, then one regex table per thread
     let groups := splitAtTok ";" ((toks.dropWhile (· ≠ "@")).drop 1)
@@ -245,7 +264,7 @@ def step (st : DSt) (toks : List String) : DSt × String :=
     let part := fun i => match outs.find? (·.1 = i) with
       | some (_, o) =>
         let r := o.decision
-        s!"{showBool r.allowed} {r.level} m={showSigs r.matched} in={showBool (m'.audit.contains r)} rx={showRx (if r.reason = .scan then calls else [])}"
+        s!"{showBool r.allowed} {r.level} m={showSigs r.matched} in={showBool (m'.audit.contains r)} rx={showRx (if r.reason = .scan then calls else [])}{rxModelCheck (parseTable (groups.getD (i + 1) [])) (contents.getD i [])}"
       | none => "missing"
     let anyRate := outs.any fun o => o.2.decision.reason = .rate
     let tag := (if order = List.range n then "p:seq" else "p:reorder") ++ (if anyRate then " p:rate" else "")
@@ -309,7 +328,7 @@ def step (st : DSt) (toks : List String) : DSt × String :=
     let (im', o) := st.inn.check env st.now content
     let calls := rxCalls st.inn.patterns
     let nj := jsonCalls env st.inn.validators content
-    let tail := s!"st={im'.inflLevel} tc={im'.triggerCount} cool={showBool (im'.cooling st.now)} cc={im'.checkCount} bc={im'.blockCount} rx={showRx calls} json={nj}"
+    let tail := s!"st={im'.inflLevel} tc={im'.triggerCount} cool={showBool (im'.cooling st.now)} cc={im'.checkCount} bc={im'.blockCount} rx={showRx calls} json={nj}{rxModelCheck table content}"
     match o with
     | .raise k =>
       if k.startsWith "hook:" then
